@@ -572,7 +572,9 @@ SPECS = {
                 k=lambda f: f.kind == "K" and bool(f.fields & {"orders.status", "orders.times", "orders.ident", "t"})),
     "C05": dict(modules=["Bourse.Props.C05"],
                 a=lambda f: (f.profile == "ties" and ((f.kind == "R" and bool(f.fields)) or (f.kind == "A" and f.audit in ("C02", "C03", "C04", "C06", "C07"))))
-                            or (f.profile == "overfull" and f.kind in ("A", "R")),
+                            # over-full batches: what the step did to the queues (shadow replay, arrival order, the views and the
+                            # ledger after it); what a submission shows between steps is C10's
+                            or (f.profile == "overfull" and f.op == "step" and (f.kind == "R" or (f.kind == "A" and f.audit in ("SH", "ORD", "C02", "C08")))),
                 k=lambda f: f.profile in ("ties", "overfull") and f.kind == "K"),
     "C06": dict(modules=["Bourse.Props.C06"],
                 a=lambda f: (f.kind == "A" and f.audit == "C06") or (f.kind == "R" and bool(cfields(f)) and f.profile in ("modify", "toggle", "mixed", "unusual"))
@@ -582,7 +584,7 @@ SPECS = {
                 # period or a snapshot reload belongs to C13 / C07
                 needs=lambda lines: any(l.startswith(("O modify", "O ev modify")) for l in lines)
                                     and not any(l.startswith(("O reload", "O trading 0")) or (l.startswith("H ") and " book " in l and l.split()[6] == "0") for l in lines),
-                k=lambda f: f.kind == "K" and bool(cfields(f)) and "modify" in f.op),
+                k=lambda f: f.kind == "K" and (bool(cfields(f)) or "hidden_state" in f.fields) and "modify" in f.op),
     "C07": dict(modules=["Bourse.Props.C07"],
                 a=lambda f: f.kind == "A" and f.audit == "C07",
                 k=lambda f: f.kind == "K" and f.op.startswith("reload")),
